@@ -90,7 +90,7 @@ class Net:
         degs = sorted((len([e for e in edges if e[1] == n]), len([e for e in edges if e[0] == n]),
                        self.origins.get(o, "-") if o is not None else "-",
                        self.dests.get(d, "-") if d is not None else "-") for (n, o, d) in nodes)
-        ls = sorted((v["N"], v["lanes"], tuple(v["vsl"]) if v["vsl"] is not None else None)
+        ls = sorted((v["N"], v["lanes"], tuple(v["vsl"]) if v["vsl"] is not None else (-1,))
                     for v in self.links.values())
         return (tuple(degs), tuple(ls), self.has_delta, self.has_phi)
 
